@@ -104,7 +104,8 @@ Definition v2_wf (f : v2file) : Prop :=
   | Some l => length l = f_n f /\ Forall (fun n => num_ok n /\ positive_x (n_val n)) l
   | None => True
   end /\
-  Forall (fun r => num_ok (fst r) /\ Forall num_ok (snd r) /\ length (snd r) = (2 * f_pairs f)%nat) (f_records f) /\
+  Forall (fun r => num_ok (fst r) /\ xlt (n_val (fst r)) xq0 = false /\ Forall num_ok (snd r) /\
+                   length (snd r) = (2 * f_pairs f)%nat) (f_records f) /\
   ascending (v2_freqs f).
 
 Definition v2_result (f : v2file) : tsobj :=
